@@ -89,6 +89,7 @@ type stubStep struct {
 	finished chan struct{}
 	finOnce  sync.Once
 	closeReq bool
+	stage    string
 }
 
 // finish releases ForceClose callers: the step's goroutine has made its last callback.
@@ -101,7 +102,12 @@ func (s *stubStep) ProvideStageInput(stage string, input map[string]any) error {
 	s.h.provides = append(s.h.provides, provideRec{Event: s.h.event, Step: s.id, Stage: stage, Input: encVal(input)})
 	return nil
 }
-func (s *stubStep) CurrentStage() string { return "" }
+// CurrentStage: like the real providers, the stub changes its stage before it reports the change (deliver).
+func (s *stubStep) CurrentStage() string {
+	s.h.mu.Lock()
+	defer s.h.mu.Unlock()
+	return s.stage
+}
 func (s *stubStep) State() step.RunningStepState {
 	s.h.mu.Lock()
 	defer s.h.mu.Unlock()
@@ -275,6 +281,9 @@ func (s *stubStep) deliver(a stubAction) {
 			oid = &a.outID
 			out = &a.out
 		}
+		s.h.mu.Lock()
+		s.stage = a.stage
+		s.h.mu.Unlock()
 		s.handler.OnStageChange(s, prev, oid, out, a.stage, false, &s.h.wg)
 	case "complete":
 		var oid *string
